@@ -351,10 +351,17 @@ _c16 = [
     H("c16_support_m5", 900, "thorough", "same, lambda = ln(5/4)", "one loop iteration", stubs=_XM1, extra=_NU1),
 ]
 _TB = ["f64::exp_m1 / f64::exp / f64::ln -> tables with the libm values of exactly the arguments new(lambda) passes (computed natively); arbitrary elsewhere"]
+def _c16_confirm(test_src, rdir):
+    import native_c16
+    return native_c16.confirm(test_src, rdir)
+
+
+# iso: these run in a scratch copy in which only harness/exp01_new.rs is mounted (they keep compiling when the field
+# layout of ExpRestricted01 changes); libm is stubbed by tables, so a counterexample is confirmed by a native search
 _c16 += [
-    H("c16_support_new_m2", 900, "quick", "ExpRestricted01::new(ln 2) built by the real constructor, then sample: every return in [0,1)", "lambda = ln 2; one loop iteration", stubs=_TB, extra=_NU1),
-    H("c16_support_new_m3", 900, "thorough", "same, lambda = ln(3/2)", "one loop iteration", stubs=_TB, extra=_NU1),
-    H("c16_support_new_m5", 900, "thorough", "same, lambda = ln(5/4)", "one loop iteration", stubs=_TB, extra=_NU1),
+    H("c16_support_new_m2", 900, "quick", "ExpRestricted01::new(ln 2) built by the real constructor, then sample: every return in [0,1)", "lambda = ln 2; one loop iteration", stubs=_TB, extra=_NU1, iso="exp01_new", native_confirm=_c16_confirm),
+    H("c16_support_new_m3", 900, "thorough", "same, lambda = ln(3/2)", "one loop iteration", stubs=_TB, extra=_NU1, iso="exp01_new", native_confirm=_c16_confirm),
+    H("c16_support_new_m5", 900, "thorough", "same, lambda = ln(5/4)", "one loop iteration", stubs=_TB, extra=_NU1, iso="exp01_new", native_confirm=_c16_confirm),
 ]
 SPECS["C16"] = dict(
     level="model_checking", harnesses=_c16,
